@@ -274,6 +274,14 @@ class Folder:
             keys = f(args[0])
             val = f(args[1]) if len(args) > 1 else None
             return dict.fromkeys(keys, val)
+        if name in ("Decimal", "decimal.Decimal") and len(args) == 1 and not node.keywords:
+            import decimal
+            v0 = f(args[0])
+            if isinstance(v0, (int, str)) and not isinstance(v0, bool):
+                try:
+                    return decimal.Decimal(v0)
+                except Exception:  # noqa: BLE001
+                    raise Unknown("Decimal") from None
         if name == "range":
             vals = [f(a) for a in args]
             if all(isinstance(v, int) for v in vals):
